@@ -2,7 +2,7 @@
 (* C16, binding V: per-cycle observations of the real Axi2Reg / Reg2Axi under   *)
 (* driven schedules, judged clause by clause (property layer), and compared     *)
 (* with the implementation-shaped registers (MODEL-DRIFT only).                 *)
-(*  trace = [which, init, steps]   step = [i |-> inputs, o |-> observation after the edge] *)
+(*  trace = [which, init, steps]   step = [i |-> inputs, p |-> observation before the edge (inputs applied), o |-> after the edge] *)
 (*  data values are symbolic indices (the harness maps them to bit patterns).   *)
 EXTENDS Axi, Json, IOUtils
 
@@ -23,10 +23,14 @@ Step ==
            t == T.steps[l].o
            props == IF T.which = "A2R" THEN A2RProps(s, i, t) ELSE R2AProps(s, i, t, g)
            mt == IF T.which = "A2R" THEN A2RNext(m, i) ELSE R2ANext(m, i)
+           pre == IF "p" \in DOMAIN T.steps[l]
+                  THEN (IF T.which = "A2R" THEN A2RPreProps(s, i, T.steps[l].p) ELSE R2APreProps(s, i, T.steps[l].p))
+                  ELSE [none |-> TRUE]
        IN  /\ s' = t
            /\ g' = IF T.which = "R2A" THEN R2AGhost(g, s, i) ELSE g
            /\ m' = t                   \* re-synchronise the model on the observation
-           /\ IF ~AllTrue(props) THEN bad' = TRUE /\ Say("V", FirstFalse(props))
+           /\ IF ~AllTrue(pre) THEN bad' = TRUE /\ Say("V", FirstFalse(pre))
+              ELSE IF ~AllTrue(props) THEN bad' = TRUE /\ Say("V", FirstFalse(props))
               ELSE /\ bad' = FALSE
                    /\ IF mt # t /\ m = s THEN Say("D", "registers") ELSE TRUE
 
